@@ -8,6 +8,7 @@ node, with what the real classes built (element identity by `id`, exact result t
 Plain composites of probe moves are *called* and the call log is compared as well.
 Probe elements also return values that are truthy / falsy without being bool (None, 0,
 2, '', numpy bools, lists).
+The leaves include user subclasses of the shipped displacement and exchange moves (which are of those kinds).
 """
 from __future__ import annotations
 
